@@ -388,6 +388,19 @@ impl Leg for Far {
     }
 }
 
+/// see c01.rs: equal-length strings that live only for the constructor call
+pub struct Temporaries;
+impl Leg for Temporaries {
+    type Case = super::c01::TempCase;
+    const NAME: &'static str = "python-equal-length-temporaries";
+    fn strategy(_tier: Tier) -> BoxedStrategy<Self::Case> {
+        super::c01::temp_strategy()
+    }
+    fn check(c: &Self::Case) -> Verdict {
+        super::c01::check_temporaries(c, 1)
+    }
+}
+
 /// first calls of a fresh process made by several threads at once
 pub struct Cold;
 impl Leg for Cold {
@@ -427,6 +440,8 @@ pub fn run(ctx: &mut Ctx) {
     if far_enabled(ctx) {
         ctx.run_leg::<Far>(2, false, 0);
     }
+    let nt = ctx.share(ctx.tier.pick(1_600, 30_000));
+    ctx.run_leg::<Temporaries>(nt, false, 200);
     let n = ctx.share(ctx.tier.pick(64, 1_600));
     ctx.run_leg::<GiantLib>(n, false, 12);
     let n = ctx.share(ctx.tier.pick(24, 480));
@@ -452,6 +467,7 @@ pub fn replay(leg: &str, case: &serde_json::Value) -> Option<Result<Verdict, Str
         "exhaustive" | "random" => Some(crate::engine::replay_leg::<Random>(case)),
         "python" => Some(crate::engine::replay_leg::<Python>(case)),
         "giant-windows" => Some(crate::engine::replay_leg::<GiantLib>(case)),
+        "python-equal-length-temporaries" => Some(crate::engine::replay_leg::<Temporaries>(case)),
         "offsets-beyond-2^32" => Some(crate::engine::replay_leg::<Far>(case)),
         "giant-python" => Some(crate::engine::replay_leg::<GiantPython>(case)),
         "cold-start-threads" => Some(crate::engine::replay_leg::<Cold>(case)),
